@@ -464,6 +464,7 @@ fn judge_graph_in(
             .collect();
         let sc = Scenario {
             spec: spec.clone(),
+            alt: None,
             clients,
             sched: kind,
             sched_seed: rng.next(),
